@@ -436,7 +436,7 @@ func (c *Ctx) firstUnhealthyAssignments(r *Reconcile, fu *ast.Ident) {
 		c.Implies(r.An.StateAfter(as), want, "C05.3-first-unhealthy-is-unhealthy", name, as.Pos())
 		return true
 	})
-	c.Floor("C05.3-first-unhealthy-assignments", n, 2)
+	c.Floor("C05.3-first-unhealthy-assignments", n, 1)
 }
 
 // updateWalkContinue: the update walk moves to a lower index only past an
